@@ -15,7 +15,8 @@ HEADER = ("(* GENERATED from {src} by harness/translate on every check run -- do
 
 
 def parse(rel):
-    return ast.parse((REPO / rel).read_text())
+    from harness.translate.normalize import normalize
+    return normalize(ast.parse((REPO / rel).read_text()))
 
 
 UNITS = {}
